@@ -269,7 +269,7 @@ class ExecExpr(ExecBase):
         def rec(i, s, acc_val):
             # acc_val: z3 Bool for the values so far (python returns operand values; we only support boolean use)
             if i == len(node.values):
-                s.env = saved_env
+                s.env = dict(saved_env)
                 yield s, V("bool", acc_val)
                 return
             for s1, v in self.guarded(node.values[i], s, acc_val if is_and else z3.Not(acc_val)):
@@ -289,7 +289,7 @@ class ExecExpr(ExecBase):
         s = st.fork()
         s.assume(guard)
         base = len(s.pc)
-        if not self.feasible(s):
+        if not self.guard_feasible(st, guard):
             # the operand can never be evaluated on this path (e.g. `not typeis(x, C) or x.f` with x of another class)
             yield st, V("bool", z3.BoolVal(False))
             return
@@ -315,6 +315,24 @@ class ExecExpr(ExecBase):
         except EngineError:
             pass
         raise EngineError("short-circuit operand with heap effects / unmergeable outcomes")
+
+    def guard_feasible(self, st, guard):
+        """cheap test used for short-circuit operands: only the class facts of the path condition are consulted
+        (enough to see that `typeis(x, C)` is impossible); anything else is assumed feasible"""
+        cache = self.__dict__.setdefault("_clsfact_cache", {})
+        s = z3.Solver()
+        s.set("timeout", 300)
+        n = 0
+        for p in st.pc:
+            k = p.get_id()
+            if k not in cache:
+                from .verify import has_quantifier
+                cache[k] = (not has_quantifier(p)) and ("cls_of" in p.sexpr())
+            if cache[k]:
+                s.add(p)
+                n += 1
+        s.add(guard)
+        return s.check() != z3.unsat
 
     def same_heap(self, a, b):
         if set(a.heap) - set(b.heap):
